@@ -154,6 +154,45 @@ class Interp:
     def new_inst(self, ci: ClassInfo, label: str = "") -> Inst:
         return Inst(ci, self.ctx.new_id(), depth=self.loop_depth, label=label)
 
+    def harness_inst(self, ci: ClassInfo, label: str = "") -> Inst:
+        """An instance handed to the analysed code from outside (made by a rule's harness, attributes filled in by hand).
+        Every attribute that some non-constructor method of its class writes is unknown: the object may have been
+        through any number of earlier calls."""
+        from . import effects
+
+        inst = self.new_inst(ci, label)
+        self.havoc_written(inst, ci.name)
+        return inst
+
+    def compile_time_config(self, env: Inst) -> Dict[str, AV]:
+        """Replace every configuration attribute of the environment (class attributes with a bool / int default) by a
+        fresh unknown for the duration of a constructor evaluation; returns the attributes to restore afterwards.
+        The configuration is public and mutable: its value when a query was compiled says nothing about its value
+        when the query is applied."""
+        saved = dict(env.attrs)
+        for ci in env.cls.mro():
+            for name, default in ci.attrs.items():
+                if isinstance(default, ast.Constant) and isinstance(default.value, bool):
+                    env.attrs[name] = Const(self.ctx.choose(("compile-time-config", env.id, name), [False, True]))
+                elif (isinstance(default, ast.Constant) and isinstance(default.value, int)) or isinstance(default, (ast.UnaryOp, ast.BinOp)):
+                    env.attrs[name] = self.new_int(f"compile-time {name}")
+        return saved
+
+    def havoc_written(self, inst: Inst, label: str) -> List[str]:
+        from . import effects
+
+        done = []
+        for name, kind in sorted(effects.written_attr_kinds(self.model, inst.cls.qualname).items()):
+            lab = f"state-left-by-earlier-calls:{label}.{name}"
+            if kind == "int":
+                inst.attrs[name] = self.new_int(lab)
+            elif kind == "bool":
+                inst.attrs[name] = Const(self.ctx.choose(("state", inst.id, name), [False, True]))
+            else:
+                inst.attrs[name] = self.new_opaque(lab)
+            done.append(f"{label}.{name}")
+        return done
+
     def kind_of(self, s: Sym) -> str:
         ks = sorted(s.kinds, key=JSON_KINDS.index)
         return self.ctx.choose(("kind", s.id), ks)
@@ -187,6 +226,20 @@ class Interp:
             self.stack.append(fr)
             try:
                 v = self.eval(m2.assigns[n2], fr)
+                self.global_cache[key2] = v
+                # module-level statements that go on filling the object after it is bound (X.update(...), X[k] = v,
+                # X.append(...), X += ...) are part of its value
+                for st in getattr(m2, "tree", None).body if getattr(m2, "tree", None) is not None else ():
+                    tgt = None
+                    if isinstance(st, ast.Expr) and isinstance(st.value, ast.Call) and isinstance(st.value.func, ast.Attribute) and isinstance(st.value.func.value, ast.Name):
+                        tgt = st.value.func.value.id
+                    elif isinstance(st, ast.Assign) and len(st.targets) == 1 and isinstance(st.targets[0], ast.Subscript) and isinstance(st.targets[0].value, ast.Name):
+                        tgt = st.targets[0].value.id
+                    elif isinstance(st, ast.AugAssign) and isinstance(st.target, ast.Name):
+                        tgt = st.target.id
+                    if tgt == n2 and st.lineno > getattr(m2.assigns[n2], "lineno", 0):
+                        self.exec_block([st], fr)
+                        v = fr.locals.get(n2, v)
             finally:
                 self.stack.pop()
             self.global_cache[key2] = v
@@ -266,6 +319,16 @@ class Interp:
             elif isinstance(v, ast.FormattedValue):
                 x = self.eval(v.value, fr)
                 conv = v.conversion
+                if v.format_spec is not None:
+                    spec = self.eval(v.format_spec, fr)
+                    if isinstance(x, Const) and isinstance(spec, Const) and isinstance(spec.value, str) and conv == -1:
+                        try:
+                            parts.append(Const(format(x.value, spec.value)))
+                        except (ValueError, TypeError) as err:
+                            raise AbsRaise(HostExc(type(err).__name__, str(err)), self.site(node, fr)) from None
+                        continue
+                    if not (isinstance(spec, Const) and spec.value == ""):
+                        raise self.unsupported(node, "format specification on a symbolic value")
                 s = self.host.to_str(x, repr_=(conv == 114), node=node)
                 parts.append(s)
                 if not isinstance(s, Const):
@@ -368,6 +431,21 @@ class Interp:
 
     def e_GeneratorExp(self, node: ast.GeneratorExp, fr: Frame) -> AV:
         return self.comprehension(node, node.elt, node.generators, fr, "iter")
+
+    def e_DictComp(self, node: ast.DictComp, fr: Frame) -> AV:
+        pair = ast.Tuple(elts=[node.key, node.value], ctx=ast.Load())
+        ast.copy_location(pair, node)
+        v = self.comprehension(node, pair, node.generators, fr, "list")
+        if not isinstance(v, PyList):
+            raise self.unsupported(node, "dict comprehension over abstract data")
+        d = PyDict(depth=self.loop_depth, oid=self.ctx.new_id())
+        for e in v.items:
+            if not (isinstance(e, PyTuple) and len(e.items) == 2):
+                raise self.unsupported(node, "dict comprehension element")
+            hk = hkey(e.items[0])
+            d.items[hk] = e.items[1]
+            d.keys_av[hk] = e.items[0]
+        return d
 
     def e_SetComp(self, node: ast.SetComp, fr: Frame) -> AV:
         v = self.comprehension(node, node.elt, node.generators, fr, "list")
@@ -586,6 +664,7 @@ class Interp:
             if init is None:
                 return inst
         init = ci.find_method("__init__")
+        inst.constructed = True
         if init is not None:
             self.call_function(init, [inst] + args, kwargs, node, self_av=inst)
         else:
@@ -890,13 +969,24 @@ class Interp:
             except _Continue:
                 pass
             raise _Return(Term("loop-continues", (dict(fr.locals),), self.ctx.new_id()))
+        if self._scan_run_idiom(st, fr):
+            return
         n = 0
+        forked = 0
         limit = self.hooks.get("__while_limit__", 64)
+        fork_limit = self.hooks.get("__while_fork_limit__", 3)
         while True:
+            before_choices = len(self.ctx.choices)
             if not self.truth(self.eval(st.test, fr), st.test):
                 self.exec_block(st.orelse, fr)
                 return
             n += 1
+            if len(self.ctx.choices) > before_choices:
+                # the loop condition depends on unknown data: every iteration forks; a loop like this scans
+                # unbounded input and cannot be unrolled (state functions are analysed per generic iteration instead)
+                forked += 1
+                if forked > fork_limit:
+                    raise self.unsupported(st, "while loop over unbounded data (its condition stays undetermined); only state functions are analysed per generic iteration")
             if n > limit:
                 raise self.unsupported(st, "while loop did not terminate within the unrolling bound")
             try:
@@ -905,6 +995,61 @@ class Interp:
                 return
             except _Continue:
                 continue
+
+    def _scan_run_idiom(self, st: ast.While, fr: Frame) -> bool:
+        """`while i < n and P(s[i]): i += 1` with s a symbolic string, n its length and P a character-class test
+        (`.isspace()`, `.isdigit()`, `in "<constant>"`): skipping a maximal run of the class.  It is executed as the
+        equivalent `m = re.compile("[class]+").match(s, i); if m: i += len(m.group())`, so that the lexical rules see
+        the class exactly as they see a regex."""
+        from . import abscalls
+
+        if st.orelse or len(st.body) != 1:
+            return False
+        b = st.body[0]
+        if not (isinstance(b, ast.AugAssign) and isinstance(b.op, ast.Add) and isinstance(b.target, ast.Name) and isinstance(b.value, ast.Constant) and b.value.value == 1):
+            return False
+        iname = b.target.id
+        t = st.test
+        if not (isinstance(t, ast.BoolOp) and isinstance(t.op, ast.And) and len(t.values) == 2):
+            return False
+        bound, pred = t.values
+        if not (isinstance(bound, ast.Compare) and len(bound.ops) == 1 and isinstance(bound.ops[0], ast.Lt) and isinstance(bound.left, ast.Name) and bound.left.id == iname):
+            return False
+
+        def char_of(e: ast.expr) -> Optional[str]:
+            if isinstance(e, ast.Subscript) and isinstance(e.value, ast.Name) and isinstance(e.slice, ast.Name) and e.slice.id == iname:
+                return e.value.id
+            return None
+
+        sname = None
+        pattern = None
+        if isinstance(pred, ast.Call) and isinstance(pred.func, ast.Attribute) and not pred.args and pred.func.attr in ("isspace", "isdigit", "isdecimal"):
+            sname = char_of(pred.func.value)
+            pattern = {"isspace": "\\s+", "isdigit": None, "isdecimal": "\\d+"}[pred.func.attr]
+        elif isinstance(pred, ast.Compare) and len(pred.ops) == 1 and isinstance(pred.ops[0], ast.In) and isinstance(pred.comparators[0], ast.Constant) and isinstance(pred.comparators[0].value, str) and pred.comparators[0].value:
+            sname = char_of(pred.left)
+            import re as _re
+
+            pattern = "[" + "".join(_re.escape(c) for c in pred.comparators[0].value) + "]+"
+        if sname is None or pattern is None:
+            return False
+        sv, iv = fr.locals.get(sname), fr.locals.get(iname)
+        if not (isinstance(sv, SymStr) and isinstance(iv, (IntV, Const))):
+            return False
+        nv = self.eval(bound.comparators[0], fr)
+        if not (isinstance(nv, IntV) and nv.lin == Lin.var(sv.len_var)):
+            return False
+        h = self.host
+        comp = Term("re.compile", (Const(pattern),), self.ctx.new_id())
+        h.regex_module[comp.id] = "re"
+        m = abscalls.call_method(h, comp, "match", [sv, iv], {}, st)
+        if self.truth(m, st):
+            g = abscalls.call_method(h, m, "group", [], {}, st)
+            ln = h.length(g, st)
+            if isinstance(ln, IntV):
+                self.ctx.assume_le0(Lin.k(1) - ln.lin)  # a match of C+ is at least one character long
+            fr.locals[iname] = h.binop("Add", iv, ln, st)
+        return True
 
     def s_Break(self, st: ast.Break, fr: Frame) -> None:
         raise _Break()
